@@ -160,7 +160,10 @@ func (b *Batch) Delete(key []byte) error {
 
 	// 缓存命中, 直接操作缓存
 	if logRecord != nil {
-		b.cachedDataSize += int64(len(logRecord.Value))
+		// 暂存记录由 put 变为墓碑值, 按新旧预估大小之差维护已缓存数据量
+		oldSize := int64(datafile.GetLogRecordDiskSize(len(logRecord.Key), len(logRecord.Value)))
+		newSize := int64(datafile.GetLogRecordDiskSize(len(logRecord.Key), 0))
+		b.cachedDataSize += newSize - oldSize
 		logRecord.Type = datafile.LogRecordDeleted
 		logRecord.Value = nil
 		return nil
